@@ -1056,7 +1056,7 @@ func c04Round4(c *core.Ctx) {
 			return false
 		}
 		outside := &core.Atom{Name: "fragment index outside the stored message", Match: func(cond ssa.Value) (int, int) {
-			op, x, y, ok := core.Cmp(cond)
+			op, x, y, ok := core.CmpOrient(cond, func(v ssa.Value) bool { return !core.IsLen(core.StripConv(v)) })
 			if !ok {
 				return 0, 0
 			}
